@@ -33,21 +33,20 @@ def queries(tier, prop='C07'):
     out = []
 
     def add(e, vset, budget=120, solver='minisat', **kw):
-        out.append(dict(entry='q_' + e, cfg={'VSET': vset}, unwind=UNWIND, budget=budget, solver=solver, ub=ub, nofunc=ub, **kw))
+        out.append(dict(entry='q_' + e, cfg={'VSET': vset}, unwind=UNWIND, unwindset={'ll_memset.0': 90, 'll_memcpy.0': 90}, budget=budget, solver=solver, ub=ub, nofunc=ub, **kw))
     quick = tier == 'quick'
     for vs in (1, 2):
         for e in STEP:
             add(e, vs)
-        add('hist3', vs, budget=300)
-        if not quick:
-            add('hist5', vs, budget=1800)
+        for h in (('hist2', 'hist3_core', 'hist3_conv') if quick else ('hist2', 'hist3', 'hist4_core', 'hist4_conv', 'hist5_core')):
+            add(h, vs, budget=300 if quick else 2400)
     add('conv_src', 1)
     for vs in (4, 3) + (() if quick else (6,)):
         for e in (SUBSET if quick else STEP):
             add(e, vs)
         if not quick:
-            add('hist3', vs, budget=600)
-            add('hist5' if vs == 4 else 'hist4', vs, budget=1800)
+            for h in ('hist2', 'hist3_core', 'hist3_conv'):
+                add(h, vs, budget=1200)
     if not quick:
         add('conv_src', 3)
     add('conv_cstr', 5, kf_only='C07_variant_converting_ctor_narrowing')
